@@ -20,6 +20,7 @@ import csv
 import datetime
 import io
 import os
+import sys
 import zipfile
 from contextlib import closing
 from xml.etree import ElementTree
@@ -214,6 +215,8 @@ def delimited_rows(delimited_source, data_format):
         delimited_stream = delimited_source
         has_opened_delimited_stream = False
     keywords = _as_delimited_keywords(data_format)
+    # Lift the limit of 131072 characters csv imposes on an item (the limit must fit a C long).
+    csv.field_size_limit(min(sys.maxsize, 2 ** 31 - 1))
     try:
         delimited_reader = _compat.csv_reader(delimited_stream, **keywords)
         try:
